@@ -140,6 +140,7 @@ func (b *Bundle) Find(fq string) (*File, *Template) {
 type Layout struct {
 	Multiline bool // one command per line, indented
 	Style     PrintStyle
+	CRLF      bool // the line breaks that lay the file out are CR LF (text and literal content is left as it is)
 }
 
 type srcw struct {
@@ -153,14 +154,23 @@ type srcw struct {
 
 func (w *srcw) nl() {
 	if w.lay.Multiline {
-		w.b.WriteString("\n" + strings.Repeat("  ", w.indent))
-		w.line++
+		w.s("\n" + strings.Repeat("  ", w.indent))
 	}
 }
 
+// s writes layout: its line breaks follow the layout's line ending.
 func (w *srcw) s(x string) {
-	w.b.WriteString(x)
 	w.line += strings.Count(x, "\n")
+	if w.lay.CRLF {
+		x = strings.ReplaceAll(x, "\n", "\r\n")
+	}
+	w.b.WriteString(x)
+}
+
+// c writes content (raw text, literal text) byte for byte.
+func (w *srcw) c(x string) {
+	w.line += strings.Count(x, "\n")
+	w.b.WriteString(x)
 }
 
 func (w *srcw) e(x Expr) string { return Src(x, w.lay.Style) }
@@ -182,13 +192,15 @@ func (w *srcw) node(n Node) {
 	}
 	switch n := n.(type) {
 	case *Raw:
-		w.s(n.Text)
+		w.c(n.Text)
 		return // raw text stays on the line (line joining is C15's subject)
 	case *Special:
 		w.s("{" + n.Name + "}")
 		return
 	case *Literal:
-		w.s("{literal}" + n.Text + "{/literal}")
+		w.s("{literal}")
+		w.c(n.Text)
+		w.s("{/literal}")
 		return
 	case *Print:
 		w.s("{")
